@@ -721,7 +721,7 @@ pub fn run_fixed(eng: &mut Eng, time_only: bool) {
 
 /// One getter object feeding several inputs of one combinator (aliasing): the combinator must treat
 /// every slot as an input in its own right (x + x is 2x, not x).
-fn aliased_inputs(eng: &mut Eng) {
+pub fn aliased_inputs(eng: &mut Eng) {
     for cat in [In::P, In::N, In::E(1), In::E(0)] {
         macro_rules! nary_alias {
             ($n:expr) => {{
